@@ -4,7 +4,7 @@ pid=sys.argv[1]
 for l in open('/verif/properties.jsonl'):
     p=json.loads(l)
     if p['id']==pid: break
-print(f"""You are given a scratch git worktree of the rqlite repository (a distributed SQLite database written in Go; module github.com/rqlite/rqlite/v10) at /tmp/seed-{pid}. Work ONLY inside /tmp/seed-{pid} and /tmp/seed-{pid}-out (create it). Do not read or touch /verif or /repo (other than through your worktree), and do not commit anything.
+print(f"""You are given a scratch git worktree of the rqlite repository (a distributed SQLite database written in Go; module github.com/rqlite/rqlite/v10) at /tmp/seed-{pid}. Work ONLY inside /tmp/seed-{pid} and /tmp/seed-{pid}-out (create it). Do not read or touch /verif or /repo (other than through your worktree), and do not commit anything. Never use `git stash` (the stash is shared between worktrees of this repository and other people are working in sibling worktrees): to switch between patched and clean states use `git diff > file`, `git checkout -- .` and `git apply file`.
 
 Go setup for every shell command (the sandbox is offline): `export GOFLAGS=-mod=mod GOPROXY=off GOSUMDB=off GOTOOLCHAIN=local` and use the `go1.26.8` binary (e.g. `cd /tmp/seed-{pid} && go1.26.8 test -count=1 ./db/...`). The first cgo build takes about a minute. The machine is shared and busy, so tests may be slow; use generous -timeout values.
 
